@@ -115,6 +115,9 @@ func gcSetup(o gcOpts) func(r *Run) simrt.Config {
 			c.Fine = true
 			c.FinePkg = "pubsub/gochannel."
 		}
+		if r.T.Chance(1, 4) {
+			c.ClockJumps, c.JumpMax, c.JumpWithin = 2, 10*time.Millisecond, 500
+		}
 		return c
 	}
 }
